@@ -579,8 +579,9 @@ NARROW_ROLES = [
     (r'Theo::(RegisterCount|StackMapIndex)$', ['C01', 'C03', 'C19']),
     (r'Theo::VM::(Word|WordIndex)$|Activation::(data_start|seg_size|return_to|debug_info)$|VM::instruction_pointer$', ['C01', 'C03', 'C19', 'C20']),
     (r'argnum$|stack_size$', ['C03', 'C04']),
+    (r'Theo::Instruction::', ['C01', 'C03', 'C16', 'C19', 'C20']),        # operand fields of the instruction record
     (r'LRElement::|LRState::|Grammar::|Symbol::', ['C09', 'C12']),
-    (r'\bpass(es)?$', ['C10', 'C11']),
+    (r'\bpass(es)?\)?$|MacroPasses$', ['C10', 'C11']),
     (r'Program::(potential_breaks|line_info|code|stack_maps)|StackMap::', ['C03', 'C05', 'C06', 'C08', 'C17']),
     (r'(template_token_indices|content_constraint_token_indices|location|length)$', ['C09']),
     (r'loops$|labels$|backpatching_todo$|marks$', ['C01', 'C03', 'C16']),
@@ -617,6 +618,8 @@ def narrow_declarations(facts):
             continue
         for f in r['fields']:
             s = sub(f.get('cty'))
+            if not s and isinstance(f.get('bits'), int) and f['bits'] < 32 and (f.get('cty') or '').replace('const ', '') in ('int', 'unsigned int', 'long', 'unsigned long', 'long long', 'unsigned long long'):
+                s = '%s : %d (bit-field)' % (f.get('cty'), f['bits'])
             if s:
                 add('field', f.get('q') or (r['q'] + '::' + f['name']), s, rl)
     for q, t in facts.typedefs.items():
@@ -676,3 +679,52 @@ def narrow_rule(rep, rule_id, pid, facts):
                     d['where'], witness={'needs': 'a value above %d in this quantity' % lim})
     R.ok('inventory', 'fields, typedefs, parameters, return types, locals and container element types of %d units scanned: none of the quantities of this property is narrower than int' % len(facts.units)
          if not mine else 'inventory of %d units' % len(facts.units), 'Compiler/, VM/')
+
+
+def lossy_key_orders(facts):
+    """Containers (fields, typedefs, locals) of the loaded units whose ordering is a hand-written comparator that folds case or compares
+    in part only: [(where, declared name, comparator, calls)].  Such a comparator identifies distinct keys (names that differ in case)."""
+    from .cmpeval import lossy_calls_in
+    comps = {}
+    for f in facts.functions:
+        if f.get('body') is None or f['tmpl'] == 'pattern' or f.get('name') != 'operator()' or len(f.get('params', [])) != 2:
+            continue
+        if f.get('kind') == 'lambda':
+            continue
+        lossy = lossy_calls_in(facts, f)
+        if lossy and f.get('rec'):
+            comps[f['rec']] = lossy
+            comps[f['rec'].split('::')[-1]] = lossy
+    out = []
+    if not comps:
+        return out
+
+    def hit(cty):
+        for c_, l_ in comps.items():
+            if c_ and (', ' + c_ in (cty or '') or ',' + c_ in (cty or '') or '::' + c_ + '>' in (cty or '') or ' ' + c_ + '>' in (cty or '') or ' ' + c_ + ',' in (cty or '')):
+                return c_, l_
+        return None
+    for q, td in facts.typedefs.items():
+        h = hit(td.get('cty'))
+        if h:
+            out.append(('typedef', q, h[0], h[1]))
+    for r in facts.records.values():
+        for fld in r.get('fields', []):
+            h = hit(fld.get('cty'))
+            if h:
+                out.append((r['q'], fld['name'], h[0], h[1]))
+    for f in facts.functions:
+        if f.get('body') is None or f['tmpl'] == 'pattern':
+            continue
+        for st in walk_stmts(f['body']):
+            if st['k'] == 'decl':
+                for v in st['vars']:
+                    h = hit(v.get('cty'))
+                    if h:
+                        out.append((f['q'], v['name'], h[0], h[1]))
+    seen, uniq = set(), []
+    for o in out:
+        if (o[0], o[1]) not in seen:
+            seen.add((o[0], o[1]))
+            uniq.append(o)
+    return uniq
